@@ -4,6 +4,7 @@
 From BCL Require Import Model.DumpLoad Model.Lexer Model.Api.
 From BCL Require Spec.Format.
 From BCL Require Model.Proto.
+From BCL Require Import Model.Reflect.
 Open Scope N_scope.
 
 Definition sp : N := 32.
@@ -238,6 +239,89 @@ Definition suite_proto (c : bytes) : bytes :=
   | _ => bs "bad-case"
   end.
 
+(* ---- Bind: parsing the case, printing the resulting target ---- *)
+Definition hd_byte (l : bytes) : N := match l with c :: _ => c | [] => 0 end.
+Fixpoint read_type (fuel : nat) (d : bytes) : gotype :=
+  match fuel with
+  | O => TOther 0
+  | S f =>
+    match fields d with
+    | k :: args =>
+      let c := hd_byte k in
+      if c =? 105 then TInt else if c =? 102 then TFloat64 else if c =? 115 then TString else if c =? 98 then TBool
+      else if c =? 73 then TIface true else if c =? 74 then TIface false
+      else if c =? 80 then match args with e :: _ => TPtr (read_type f e) | _ => TOther 0 end
+      else if c =? 76 then match args with e :: _ => TSlice (read_type f e) | _ => TOther 0 end
+      else if c =? 83 then
+        match args with
+        | tname :: flds :: _ =>
+          TStruct tname (map (fun fd => match fields fd with
+                                        | n :: flags :: tag :: ty :: _ =>
+                                          Field n (match flags with 49 :: _ => true | _ => false end)
+                                                  (match flags with _ :: 49 :: _ => true | _ => false end) tag (read_type f ty)
+                                        | _ => Field [] false false [] (TOther 0) end) (fields flds))
+        | _ => TOther 0 end
+      else TOther 1
+    | [] => TOther 0
+    end
+  end.
+Fixpoint read_bval (fuel : nat) (d : bytes) : value :=
+  match fuel with
+  | O => VNil
+  | S f =>
+    match d with
+    | 66 :: r => match fields r with
+                 | t :: n :: fs :: _ =>
+                   VBlock t n (map (fun kv => match fields kv with k :: v :: _ => (k, read_bval f v) | _ => ([], VNil) end) (fields fs))
+                 | _ => VNil end
+    | _ => read_value d
+    end
+  end.
+Fixpoint show_goval (fuel : nat) (t : gotype) (v : goval) : bytes :=
+  match fuel with
+  | O => bs "?"
+  | S f =>
+    match t with
+    | TInt => match v with GVal x => show_val 64 x | _ => bs "i0" end
+    | TFloat64 => match v with GVal x => show_val 64 x | _ => bs "f0" end
+    | TString => match v with GVal x => show_val 64 x | _ => bs "s" end
+    | TBool => match v with GVal x => show_val 64 x | _ => bs "b0" end
+    | TOther _ => bs "o"
+    | TIface _ => match v with GVal x => bs "I" ++ show_val 64 x | _ => bs "nil" end
+    | TPtr et => match v with GPtrTo x => bs "&" ++ show_goval f et x | _ => bs "nilptr" end
+    | TSlice et => match v with GSlice l => bs "[" ++ join [32] (map (show_goval f et) l) ++ bs "]" | _ => bs "[]" end
+    | TStruct _ fs =>
+      let l := as_struct v fs in
+      bs "{" ++ join [32] (map (fun p => show_goval f (ftyp (fst p)) (snd p)) (combine fs l)) ++ bs "}"
+    end
+  end.
+Definition berr_name (e : berr) : bytes :=
+  bs match e with
+  | ENoBinding => "no-binding" | ENotPointer => "not-pointer" | ENotStruct => "not-struct" | ENotSlice => "not-slice"
+  | EElemNotStruct => "elem-not-struct" | EUnknownBinding => "unknown-binding" | EBlockNotStruct => "block-not-struct"
+  | ETypeName => "type-name" | EMapping => "mapping" | EUnexported => "unexported" | ENilValue => "nil-value"
+  | EDupField => "dup-field" | ENilEmbedded => "nil-embedded" | ECannotSet => "cannot-set" | ETypeMismatch => "type-mismatch"
+  | EBadBlockValue => "bad-block" end.
+(* bind: fields  mode ; type ; binding kind ; blocks...   (targets start from zero values) *)
+Definition suite_bind (c : bytes) : bytes :=
+  match fields c with
+  | mode :: ty :: bk :: blks =>
+    let t := read_type 32 ty in
+    let m := hd_byte mode in
+    let tg := if m =? 110 then TgtNilIface else if m =? 118 then TgtValue t GZero
+              else if m =? 122 then TgtNilPtr t else TgtPtr t GZero in
+    let k := hd_byte bk in
+    let b := if k =? 110 then BdNone else if k =? 115 then BdStruct (read_bval 32 (hd [] blks))
+             else if k =? 108 then BdSlice (map (read_bval 32) blks) else BdUnknown in
+    match bind tg b with
+    | BOk (GPtrTo v) => bs "ok " ++ show_goval 32 t v
+    | BOk v => bs "ok? " ++ show_goval 32 t v
+    | BErr e => bs "err " ++ berr_name e
+    | BPanic => bs "panic"
+    end
+  | _ => bs "bad-case"
+  end.
+
 Definition run_suite (name : bytes) (c : bytes) : bytes :=
   if bytes_eqb name (bs "dump") then suite_dump c
   else if bytes_eqb name (bs "load") then suite_load c
@@ -251,4 +335,5 @@ Definition run_suite (name : bytes) (c : bytes) : bytes :=
   else if bytes_eqb name (bs "fmtencode") then suite_fmtencode c
   else if bytes_eqb name (bs "loadexec") then suite_loadexec c
   else if bytes_eqb name (bs "proto") then suite_proto c
+  else if bytes_eqb name (bs "bind") then suite_bind c
   else bs "unknown-suite".
